@@ -253,6 +253,12 @@ def attributes(tokeniser: Any) -> list[Route]:
             break
 
         ipmask = prefix(tokeniser)
+        # the family (and the next-hop) of the command was taken from the last prefix: all must agree with it
+        if ipmask.afi != template_settings.afi:
+            raise ValueError(
+                f"'{peeked_nlri}' is not an {template_settings.afi} prefix\n"
+                f'  All the prefixes following nlri must be of the same address family'
+            )
         # Copy template settings and update with new CIDR
         settings = copy(template_settings)
         settings.cidr = CIDR.create_cidr(ipmask.pack_ip(), ipmask.mask)
